@@ -27,6 +27,7 @@ Record pbar := {
   p_max : Z; p_step : Z; p_step_width : nat;
   p_pct_n : Z; p_pct_d : Z;     (* _percent (get_progress_percent) as the fraction it was computed from; 0/1 = 0.0 *)
   p_bar_width : Z;
+  p_pchar : str;                 (* progress_char (markup: measured by its visible length) *)
   p_custom : option format;      (* set_format *)
   p_fmt : option format;         (* the format actually used, fixed at the first display/clear *)
   p_flc : nat;                   (* _format_line_count *)
@@ -44,35 +45,35 @@ Record pbar := {
 Definition set_steps (p : pbar) (mx step : Z) (sw : nat) : pbar :=
   {| p_ansi := p_ansi p; p_quiet := p_quiet p; p_section := p_section p; p_w := p_w p; p_f := p_f p; p_secs := p_secs p;
      p_verbosity := p_verbosity p; p_max := mx; p_step := step; p_step_width := sw; p_pct_n := p_pct_n p; p_pct_d := p_pct_d p;
-     p_bar_width := p_bar_width p; p_custom := p_custom p; p_fmt := p_fmt p; p_flc := p_flc p; p_last_len := p_last_len p;
+     p_bar_width := p_bar_width p; p_pchar := p_pchar p; p_custom := p_custom p; p_fmt := p_fmt p; p_flc := p_flc p; p_last_len := p_last_len p;
      p_write_count := p_write_count p; p_start := p_start p; p_last_write := p_last_write p;
      p_min_num := p_min_num p; p_min_den := p_min_den p; p_maxs_num := p_maxs_num p; p_maxs_den := p_maxs_den p;
      p_redraw_freq := p_redraw_freq p; p_message := p_message p; p_drawn := p_drawn p |}.
 Definition set_fmt (p : pbar) (f : option format) (flc : nat) : pbar :=
   {| p_ansi := p_ansi p; p_quiet := p_quiet p; p_section := p_section p; p_w := p_w p; p_f := p_f p; p_secs := p_secs p;
      p_verbosity := p_verbosity p; p_max := p_max p; p_step := p_step p; p_step_width := p_step_width p; p_pct_n := p_pct_n p; p_pct_d := p_pct_d p;
-     p_bar_width := p_bar_width p; p_custom := p_custom p; p_fmt := f; p_flc := flc; p_last_len := p_last_len p;
+     p_bar_width := p_bar_width p; p_pchar := p_pchar p; p_custom := p_custom p; p_fmt := f; p_flc := flc; p_last_len := p_last_len p;
      p_write_count := p_write_count p; p_start := p_start p; p_last_write := p_last_write p;
      p_min_num := p_min_num p; p_min_den := p_min_den p; p_maxs_num := p_maxs_num p; p_maxs_den := p_maxs_den p;
      p_redraw_freq := p_redraw_freq p; p_message := p_message p; p_drawn := p_drawn p |}.
 Definition set_written (p : pbar) (last_len : nat) (now : Z) : pbar :=
   {| p_ansi := p_ansi p; p_quiet := p_quiet p; p_section := p_section p; p_w := p_w p; p_f := p_f p; p_secs := p_secs p;
      p_verbosity := p_verbosity p; p_max := p_max p; p_step := p_step p; p_step_width := p_step_width p; p_pct_n := p_pct_n p; p_pct_d := p_pct_d p;
-     p_bar_width := p_bar_width p; p_custom := p_custom p; p_fmt := p_fmt p; p_flc := p_flc p; p_last_len := last_len;
+     p_bar_width := p_bar_width p; p_pchar := p_pchar p; p_custom := p_custom p; p_fmt := p_fmt p; p_flc := p_flc p; p_last_len := last_len;
      p_write_count := (p_write_count p + 1)%Z; p_start := p_start p; p_last_write := now;
      p_min_num := p_min_num p; p_min_den := p_min_den p; p_maxs_num := p_maxs_num p; p_maxs_den := p_maxs_den p;
      p_redraw_freq := p_redraw_freq p; p_message := p_message p; p_drawn := p_drawn p |}.
 Definition set_start (p : pbar) (t : Z) : pbar :=
   {| p_ansi := p_ansi p; p_quiet := p_quiet p; p_section := p_section p; p_w := p_w p; p_f := p_f p; p_secs := p_secs p;
      p_verbosity := p_verbosity p; p_max := p_max p; p_step := p_step p; p_step_width := p_step_width p; p_pct_n := p_pct_n p; p_pct_d := p_pct_d p;
-     p_bar_width := p_bar_width p; p_custom := p_custom p; p_fmt := p_fmt p; p_flc := p_flc p; p_last_len := p_last_len p;
+     p_bar_width := p_bar_width p; p_pchar := p_pchar p; p_custom := p_custom p; p_fmt := p_fmt p; p_flc := p_flc p; p_last_len := p_last_len p;
      p_write_count := p_write_count p; p_start := t; p_last_write := p_last_write p;
      p_min_num := p_min_num p; p_min_den := p_min_den p; p_maxs_num := p_maxs_num p; p_maxs_den := p_maxs_den p;
      p_redraw_freq := p_redraw_freq p; p_message := p_message p; p_drawn := p_drawn p |}.
 Definition set_message (p : pbar) (m : option str) : pbar :=
   {| p_ansi := p_ansi p; p_quiet := p_quiet p; p_section := p_section p; p_w := p_w p; p_f := p_f p; p_secs := p_secs p;
      p_verbosity := p_verbosity p; p_max := p_max p; p_step := p_step p; p_step_width := p_step_width p; p_pct_n := p_pct_n p; p_pct_d := p_pct_d p;
-     p_bar_width := p_bar_width p; p_custom := p_custom p; p_fmt := p_fmt p; p_flc := p_flc p; p_last_len := p_last_len p;
+     p_bar_width := p_bar_width p; p_pchar := p_pchar p; p_custom := p_custom p; p_fmt := p_fmt p; p_flc := p_flc p; p_last_len := p_last_len p;
      p_write_count := p_write_count p; p_start := p_start p; p_last_write := p_last_write p;
      p_min_num := p_min_num p; p_min_den := p_min_den p; p_maxs_num := p_maxs_num p; p_maxs_den := p_maxs_den p;
      p_redraw_freq := p_redraw_freq p; p_message := m; p_drawn := p_drawn p |}.
@@ -80,7 +81,7 @@ Definition set_message (p : pbar) (m : option str) : pbar :=
 Definition set_out (p : pbar) (f : formatter) (st : secs) : pbar :=
   {| p_ansi := p_ansi p; p_quiet := p_quiet p; p_section := p_section p; p_w := p_w p; p_f := f; p_secs := st;
      p_verbosity := p_verbosity p; p_max := p_max p; p_step := p_step p; p_step_width := p_step_width p; p_pct_n := p_pct_n p; p_pct_d := p_pct_d p;
-     p_bar_width := p_bar_width p; p_custom := p_custom p; p_fmt := p_fmt p; p_flc := p_flc p; p_last_len := p_last_len p;
+     p_bar_width := p_bar_width p; p_pchar := p_pchar p; p_custom := p_custom p; p_fmt := p_fmt p; p_flc := p_flc p; p_last_len := p_last_len p;
      p_write_count := p_write_count p; p_start := p_start p; p_last_write := p_last_write p;
      p_min_num := p_min_num p; p_min_den := p_min_den p; p_maxs_num := p_maxs_num p; p_maxs_den := p_maxs_den p;
      p_redraw_freq := p_redraw_freq p; p_message := p_message p; p_drawn := p_drawn p |}.
@@ -89,7 +90,7 @@ Definition set_out (p : pbar) (f : formatter) (st : secs) : pbar :=
 Definition set_pct (p : pbar) (n d : Z) : pbar :=
   {| p_ansi := p_ansi p; p_quiet := p_quiet p; p_section := p_section p; p_w := p_w p; p_f := p_f p; p_secs := p_secs p;
      p_verbosity := p_verbosity p; p_max := p_max p; p_step := p_step p; p_step_width := p_step_width p; p_pct_n := n; p_pct_d := d;
-     p_bar_width := p_bar_width p; p_custom := p_custom p; p_fmt := p_fmt p; p_flc := p_flc p; p_last_len := p_last_len p;
+     p_bar_width := p_bar_width p; p_pchar := p_pchar p; p_custom := p_custom p; p_fmt := p_fmt p; p_flc := p_flc p; p_last_len := p_last_len p;
      p_write_count := p_write_count p; p_start := p_start p; p_last_write := p_last_write p;
      p_min_num := p_min_num p; p_min_den := p_min_den p; p_maxs_num := p_maxs_num p; p_maxs_den := p_maxs_den p;
      p_redraw_freq := p_redraw_freq p; p_message := p_message p; p_drawn := p_drawn p |}.
@@ -98,7 +99,7 @@ Definition set_drawn (p : pbar) (d : option (Z * Z)) : pbar :=
   {| p_ansi := p_ansi p; p_quiet := p_quiet p; p_section := p_section p; p_w := p_w p; p_f := p_f p; p_secs := p_secs p;
      p_verbosity := p_verbosity p; p_max := p_max p; p_step := p_step p; p_step_width := p_step_width p;
      p_pct_n := p_pct_n p; p_pct_d := p_pct_d p;
-     p_bar_width := p_bar_width p; p_custom := p_custom p; p_fmt := p_fmt p; p_flc := p_flc p; p_last_len := p_last_len p;
+     p_bar_width := p_bar_width p; p_pchar := p_pchar p; p_custom := p_custom p; p_fmt := p_fmt p; p_flc := p_flc p; p_last_len := p_last_len p;
      p_write_count := p_write_count p; p_start := p_start p; p_last_write := p_last_write p;
      p_min_num := p_min_num p; p_min_den := p_min_den p; p_maxs_num := p_maxs_num p; p_maxs_den := p_maxs_den p;
      p_redraw_freq := p_redraw_freq p; p_message := p_message p; p_drawn := d |}.
@@ -171,36 +172,45 @@ Definition bar_offset (p : pbar) : Z :=
        | Some _ => (p_step p mod p_bar_width p)%Z
        | None => nomax_offset (p_bar_width p) (p_write_count p)
        end.
-Definition render_bar (p : pbar) : str :=
+(* _formatter_bar: complete cells, then - unless the bar is full - the progress character and the empty cells that are
+   left beside its `pclen` VISIBLE cells *)
+Definition bar_full (p : pbar) : bool := negb (bar_offset p <? p_bar_width p)%Z.
+Definition render_bar_with (p : pbar) (pc : str) (pclen : nat) : str :=
   let c := bar_offset p in
   let bar_char := if (0 <? p_max p)%Z then 61%N else 45%N in
   sp bar_char (Z.to_nat c) ++
-  (if (c <? p_bar_width p)%Z then 62%N :: sp 45%N (Z.to_nat (p_bar_width p - c - 1)) else []).
+  (if bar_full p then [] else pc ++ sp 45%N (Z.to_nat (p_bar_width p - c - Z.of_nat pclen))).
+Definition GT1 : str := [62%N].                                   (* the default progress character ">" *)
+Definition render_bar (p : pbar) : str := render_bar_with p GT1 1.
 
 Definition percent_of (p : pbar) : Z := if (0 <? p_max p)%Z then (p_step p * 100 / p_max p)%Z else 0%Z.
 Definition no_max : ekind := Other 9.       (* RuntimeError: no maximum set *)
-Definition render_piece (p : pbar) (now : Z) (x : piece) : res str :=
+(* one placeholder; %bar% asks the formatter for the visible length of the progress character (unless the bar is full) *)
+Definition render_piece (p : pbar) (now : Z) (fm : formatter) (x : piece) : res (formatter * str) :=
   match x with
-  | PLit s => Ok s
-  | PCurrent => Ok (just (SRight (p_step_width p)) (dec_text (p_step p)))
-  | PMax => Ok (dec_text (p_max p))
-  | PBar => Ok (render_bar p)
-  | PPercent s => Ok (just s (dec_text (percent_of p)))
-  | PElapsed s => Ok (just s (format_time (now - p_start p)))
+  | PLit s => Ok (fm, s)
+  | PCurrent => Ok (fm, just (SRight (p_step_width p)) (dec_text (p_step p)))
+  | PMax => Ok (fm, dec_text (p_max p))
+  | PBar =>
+    if bar_full p then Ok (fm, render_bar_with p [] 0)
+    else do x <- remove_format fm (p_pchar p); Ok (fst x, render_bar_with p (p_pchar p) (length (snd x)))
+  | PPercent s => Ok (fm, just s (dec_text (percent_of p)))
+  | PElapsed s => Ok (fm, just s (format_time (now - p_start p)))
   | PEstimated s =>
     if (p_max p =? 0)%Z then Err no_max else
-    Ok (just s (dec_text (if (p_step p =? 0)%Z then 0%Z
-                          else round_half_even ((now - p_start p) * p_max p) (1000 * p_step p))))
+    Ok (fm, just s (dec_text (if (p_step p =? 0)%Z then 0%Z
+                              else round_half_even ((now - p_start p) * p_max p) (1000 * p_step p))))
   | PRemaining s =>
     if (p_max p =? 0)%Z then Err no_max else
-    Ok (just s (format_time (1000 * (if (p_step p =? 0)%Z then 0%Z
-                                     else round_half_even ((now - p_start p) * (p_max p - p_step p)) (1000 * p_step p)))))
-  | PMessage => Ok (match p_message p with Some m => m | None => [37;109;101;115;115;97;103;101;37]%N end)
+    Ok (fm, just s (format_time (1000 * (if (p_step p =? 0)%Z then 0%Z
+                                         else round_half_even ((now - p_start p) * (p_max p - p_step p)) (1000 * p_step p)))))
+  | PMessage => Ok (fm, match p_message p with Some m => m | None => [37;109;101;115;115;97;103;101;37]%N end)
   end.
-Fixpoint render_frame (p : pbar) (now : Z) (f : format) : res str :=
+(* the placeholders are replaced from left to right *)
+Fixpoint render_frame (p : pbar) (now : Z) (fm : formatter) (f : format) : res (formatter * str) :=
   match f with
-  | [] => Ok []
-  | x :: r => do a <- render_piece p now x; do b <- render_frame p now r; Ok (a ++ b)
+  | [] => Ok (fm, [])
+  | x :: r => do a <- render_piece p now fm x; do b <- render_frame p now (fst a) r; Ok (fst b, snd a ++ snd b)
   end.
 
 Fixpoint split_nl (s : str) : list str :=
@@ -222,11 +232,11 @@ Definition set_max_steps (p : pbar) (mx : Z) : pbar :=
    set_redraw_frequency(rf) *)
 Definition pb_new (ansi quiet section : bool) (w : nat) (f : formatter) (st : secs) (verbosity : Z) (mx : Z) (bar_width : Z)
                   (min_num min_den maxs_num maxs_den : Z) (rf : option Z)
-                  (custom : option format) (message : option str) (now : Z) : pbar :=
+                  (pchar : str) (custom : option format) (message : option str) (now : Z) : pbar :=
   set_max_steps
     {| p_ansi := ansi; p_quiet := quiet; p_section := section; p_w := w; p_f := f; p_secs := st;
        p_verbosity := verbosity; p_max := 0; p_step := 0; p_step_width := 4; p_pct_n := 0; p_pct_d := 1;
-       p_bar_width := bar_width; p_custom := custom; p_fmt := None; p_flc := 0; p_last_len := 0; p_write_count := 0;
+       p_bar_width := bar_width; p_pchar := pchar; p_custom := custom; p_fmt := None; p_flc := 0; p_last_len := 0; p_write_count := 0;
        p_start := now; p_last_write := 0; p_min_num := min_num; p_min_den := min_den;
        p_maxs_num := maxs_num; p_maxs_den := maxs_den;
        p_redraw_freq := if (0 <? min_num)%Z || negb ansi then None
@@ -290,12 +300,12 @@ Definition overwrite (p : pbar) (now : Z) (message : str) : res (pbar * list emi
   do mv <- max_vis (p_f (fst wr)) lines 0;
   Ok (set_written (set_out (fst wr) (fst mv) (p_secs (fst wr))) (snd mv) now, snd pre ++ snd wr).
 
-Definition frame_of (p : pbar) (now : Z) : res str :=
-  render_frame p now (match p_fmt p with Some f => f | None => [] end).
+Definition frame_of (p : pbar) (now : Z) : res (formatter * str) :=
+  render_frame p now (p_f p) (match p_fmt p with Some f => f | None => [] end).
 Definition display (p : pbar) (now : Z) : res (pbar * list emit) :=
   if p_quiet p then Ok (p, [])
   else let p1 := with_fmt p in
-       do fr <- frame_of p1 now; do x <- overwrite p1 now fr;
+       do fr <- frame_of p1 now; do x <- overwrite (set_out p1 (fst fr) (p_secs p1)) now (snd fr);
        Ok (set_drawn (fst x) (Some (p_step p, p_max p)), snd x).
 
 (* int(step / redraw_freq): exact *)
@@ -394,24 +404,24 @@ Definition dec_pop (s : sexp) : option (Z * pop) :=
   | L [A dt; L [A 7%Z; t]] => option_map (fun t => (dt, OBelow t)) (dStr t)
   | _ => None end.
 (* request: ansi? quiet? section? verbosity max bar-width min (num den) max-interval (num den) redraw-frequency?
-   custom-format? message? t0 ops width style-set below?.  On a section output two sections are created first and
+   custom-format? message? t0 ops width style-set below? progress-character.  On a section output two sections are created first and
    `below` (when given) is written to the second one.
    answer: the bytes of that set-up, the trace (clock value and emits of every call), step, max and the progress
    fraction (reduced), the terminal after
    everything, every section's content lines and row count, whether the case is inside the class of the frame theorems *)
 Definition run_C16 (s : sexp) : sexp :=
   match s with
-  | L [ansi; quiet; section; A verb; A mx; A bw; A mnum; A mden; A xnum; A xden; rf; custom; msg; A t0; ops; A w; set; below] =>
+  | L [ansi; quiet; section; A verb; A mx; A bw; A mnum; A mden; A xnum; A xden; rf; custom; msg; A t0; ops; A w; set; below; pchar] =>
     match dB ansi, dB quiet, dB section, dOpt dZ rf, dOpt (dList dec_piece) custom, dOpt dStr msg, dList dec_pop ops,
-          dList OutputM.dec_cstyle set, dOpt dStr below with
-    | Some ansi, Some quiet, Some section, Some rf, Some custom, Some msg, Some ops, Some set, Some below =>
+          dList OutputM.dec_cstyle set, dOpt dStr below, dStr pchar with
+    | Some ansi, Some quiet, Some section, Some rf, Some custom, Some msg, Some ops, Some set, Some below, Some pchar =>
       let w := Z.to_nat w in
       match new_formatter (if ansi then FAnsi true else FPlain) set with
       | Ok f0 =>
         let setup := if section then [SCreate; SCreate] ++ (match below with Some t => [SWrite 1 t true] | None => [] end) else [] in
         match srun ansi w [] f0 setup with
         | Ok (st0, f1, es0) =>
-          let p := pb_new ansi quiet section w f1 st0 verb mx bw mnum mden xnum xden rf custom msg t0 in
+          let p := pb_new ansi quiet section w f1 st0 verb mx bw mnum mden xnum xden rf pchar custom msg t0 in
           match prun p t0 ops with
           | Ok (trace, pf) =>
             L [A 0%Z; sList enc_emit es0;
@@ -422,14 +432,15 @@ Definition run_C16 (s : sexp) : sexp :=
                sList (fun x => L [sList sStr (sc_content x); A (Z.of_nat (sc_lines x))]) (p_secs pf);
                sB (forallb (good_pop (f_styles f0)) (map snd ops)
                    && match msg with Some m => good_lineb (f_styles f0) m | None => true end
-                   && match below with Some t => good_textb (f_styles f0) t | None => true end)]
+                   && match below with Some t => good_textb (f_styles f0) t | None => true end
+                   && good_lineb (f_styles f0) pchar)]
           | Err k => sErr k
           end
         | Err k => sErr k
         end
       | Err k => sErr k
       end
-    | _, _, _, _, _, _, _, _, _ => sBad
+    | _, _, _, _, _, _, _, _, _, _ => sBad
     end
   | _ => sBad
   end.
